@@ -188,7 +188,12 @@ def drive(run, tier, rng, focus):
                             ev.update(i=i + 1, v=v)
                             x = common.relayout(np.array(v, dtype=dtype), rng.choice(common.LAYOUTS))
                             x.flags.writeable = False
-                            objs[i].accumulate(x)
+                            # a single vector has one axis, which may be named either way (or not at all)
+                            ax = rng.choice([None, -1, 0])
+                            if ax is None:
+                                objs[i].accumulate(x)
+                            else:
+                                objs[i].accumulate(x, axis=ax)
                             bags[i].append(v)
                         elif op == "acct":
                             vs = [pick(D) for _ in range(rng.randint(2, 3))]
